@@ -32,6 +32,29 @@ pub enum JReader {
     /// text -> serde_json::Value -> serde_json::from_value: keys arrive as owned Strings in
     /// sorted order, duplicates have already been merged by the Value
     Value,
+    /// the value sits behind `#[serde(flatten)]` in a caller's struct: serde buffers the outer map
+    /// and hands the type only the entries named in its `fields` list, keys as owned Strings
+    Flatten,
+    /// the value is the only variant of a caller's `#[serde(untagged)]` enum: serde buffers the
+    /// whole input as Content and replays it
+    Untagged,
+}
+
+/// A caller's struct embedding a cgmath record with `flatten`.
+#[derive(Deserialize)]
+#[serde(bound(deserialize = "T: DeserializeOwned"))]
+pub struct FlatWrap<T> {
+    #[allow(dead_code)]
+    pub tag: u32,
+    #[serde(flatten)]
+    pub inner: T,
+}
+
+/// A caller's untagged enum around a cgmath value.
+#[derive(Deserialize)]
+#[serde(untagged, bound(deserialize = "T: DeserializeOwned"))]
+pub enum UntaggedWrap<T> {
+    Only(T),
 }
 
 #[derive(Clone, Debug, PartialEq, Serialize, Deserialize)]
@@ -510,6 +533,24 @@ pub fn read_json<T: DeserializeOwned>(bytes: &[u8], plan: &JPlan, stats: &mut (u
             *stats = (rd.calls, rd.err_fired, rd.eintr_fired, rd.short_fired);
             r
         }
+        JReader::Flatten => {
+            // splice the wrapper's own field in front of the record's entries
+            let mut t = Vec::with_capacity(bytes.len() + 10);
+            let i = bytes.iter().position(|c| !c.is_ascii_whitespace()).unwrap_or(0);
+            if bytes.get(i) == Some(&b'{') {
+                t.extend_from_slice(&bytes[..=i]);
+                let rest = &bytes[i + 1..];
+                let empty = rest.iter().find(|c| !c.is_ascii_whitespace()) == Some(&b'}');
+                t.extend_from_slice(if empty { b"\"tag\":7" } else { b"\"tag\":7," });
+                t.extend_from_slice(rest);
+                serde_json::from_slice::<FlatWrap<T>>(&t).map(|w| w.inner).map_err(|e| e.to_string())
+            } else {
+                serde_json::from_slice::<T>(bytes).map_err(|e| e.to_string())
+            }
+        }
+        JReader::Untagged => serde_json::from_slice::<UntaggedWrap<T>>(bytes)
+            .map(|UntaggedWrap::Only(x)| x)
+            .map_err(|e| e.to_string()),
         JReader::Value => serde_json::from_slice::<serde_json::Value>(bytes)
             .and_then(serde_json::from_value::<T>)
             .map_err(|e| e.to_string()),
@@ -779,7 +820,11 @@ pub fn run_json<T: Subject>(plan: &JPlan, opts: RunOpts) -> Outcome {
         }
         let mut rstats = (0u32, false, 0u32, 0u32);
         let res: Result<T, String> =
-            if plan.in_place { read_json_in_place(&bytes, plan, &mut rstats) } else { read_json(&bytes, plan, &mut rstats) };
+            if plan.in_place && !matches!(plan.reader, JReader::Value | JReader::Flatten | JReader::Untagged) {
+                read_json_in_place(&bytes, plan, &mut rstats)
+            } else {
+                read_json(&bytes, plan, &mut rstats)
+            };
         out.rsteps = rstats.0.max(1);
         out.read_ok = Some(res.is_ok());
         out.jstats.r_eintr += rstats.2;
@@ -850,6 +895,15 @@ pub fn run_json<T: Subject>(plan: &JPlan, opts: RunOpts) -> Outcome {
                 _ => false,
             };
             let root_is_record = matches!(skip_wrappers(t), Node::Struct { .. });
+            if plan.reader == JReader::Flatten && root_is_record {
+                // serde's flatten machinery withholds every entry the type's `fields` list does not
+                // name, at every level it buffers (the top one): injected entries never arrive
+                for (p, order) in opened.iter_mut() {
+                    if p.len == 0 {
+                        order.retain(|d| matches!(d, Deliver::Orig(_)));
+                    }
+                }
+            }
             let facts = ReadFacts {
                 root: t,
                 opened: &opened,
